@@ -241,6 +241,19 @@ func newEnv(thorough bool) *env {
 	}
 	F("1e20", 1e20)
 	I("10^20", "100000000000000000000")
+	// non-integral floats next to ints beyond the int32 range, in both signs
+	// (the int/float order must take floor and ceiling the right way round)
+	for _, n := range []int64{3000000000, 1 << 40, 1 << 52} {
+		for _, sign := range []int64{1, -1} {
+			I(fmt.Sprintf("%d", sign*n), fmt.Sprintf("%d", sign*n))
+			I(fmt.Sprintf("%d", sign*(n+1)), fmt.Sprintf("%d", sign*(n+1)))
+			F(fmt.Sprintf("%d.0", sign*n), float64(sign*n))
+			F(fmt.Sprintf("%d.5", sign*n), float64(sign*n)+float64(sign)*0.5)
+			if n < 1<<52 {
+				F(fmt.Sprintf("%d.25", sign*(n-1)), float64(sign*(n-1))+float64(sign)*0.25)
+			}
+		}
+	}
 	F("5e-324", 5e-324)
 	F("+inf", math.Inf(1))
 	F("-inf", math.Inf(-1))
@@ -276,6 +289,14 @@ func newEnv(thorough bool) *env {
 	one, onef, two := starlark.MakeInt(1), starlark.Float(1), starlark.MakeInt(2)
 	sa := starlark.String("a")
 	nan := starlark.Float(math.NaN())
+	// slices that share the backing array of a longer tuple (what t[:2], t[1:] return)
+	base123 := starlark.Tuple{one, two, starlark.MakeInt(3)}
+	add("(1,2,3)", base123, "tuple")
+	add("(1,2,3)[:2]", base123[:2], "tuple")
+	add("(1,2,3)[:1]", base123[:1], "tuple")
+	add("(1,2,3)[1:]", base123[1:], "tuple")
+	add("(1,2,3)[:0]", base123[:0], "tuple")
+	add("(1,2) fresh", starlark.Tuple{starlark.MakeInt(1), starlark.MakeInt(2)}, "tuple")
 	add("()", starlark.Tuple{}, "tuple")
 	add("(1,)", starlark.Tuple{one}, "tuple")
 	add("(1.0,)", starlark.Tuple{onef}, "tuple")
